@@ -13,6 +13,7 @@ package join
 //@   ensures result == self.errs
 
 //@ spec func countNonNil(s []error, n int) int
+
 //@ unfold countNonNil(s, n) = n <= 0 ? 0 : countNonNil(s, n - 1) + (s[n - 1] != nil ? 1 : 0)
 
 //@ func Join
